@@ -31,6 +31,7 @@ type Obligation struct {
 	Cover  bool // reachability cover: expected sat
 	Static string // non-empty: decided without a solver (contract clause could not be interpreted)
 	Extra  []string
+	Meta   string // machine-readable note (e.g. which callee parameter a guarantee is about)
 
 	Result string
 	Solver string
